@@ -21,7 +21,7 @@ fn run(source: &str) -> Option<Result<String, String>> {
 struct St { c1: i32, c2: i32, a: u8, b: u8, tilde: u8, cat: u8, gd: i32 }
 
 #[derive(Clone, Copy, Debug, PartialEq)]
-enum Op { Begin, End, Count1(bool, i32), Alias(bool, i32), DefA(bool, u8), DefTilde(bool, u8), LetB(bool), Cat(bool, u8), GlobalDefs(i32), DefAP(u8, u8), Adv(bool) }
+enum Op { Begin, End, Count1(bool, i32), Alias(bool, i32), DefA(bool, u8), DefTilde(bool, u8), LetB(bool), Cat(bool, u8), GlobalDefs(i32), DefAP(u8, u8), Adv(bool), LetAA(bool) }
 
 fn tex(op: Op) -> String {
     let g = |b: bool| if b { "\\global" } else { "" };
@@ -37,6 +37,8 @@ fn tex(op: Op) -> String {
         // several prefixes in a row: \global may come first, second or last, or not at all
         Op::DefAP(k, v) => format!("{}\\def\\a{{{v}}}", ["\\long", "\\long\\global", "\\global\\long\\outer", "\\outer\\long\\global"][k as usize]),
         Op::Adv(gl) => format!("{}\\advance\\count1 by 1 ", g(gl)),
+        // a name aliased to ITSELF: locally a no-op, globally it promotes the current meaning to every level
+        Op::LetAA(gl) => format!("{}\\let\\a=\\a ", g(gl)),
     }
 }
 
@@ -57,6 +59,7 @@ fn apply(cur: &mut St, saved: &mut Vec<St>, op: Op) -> bool {
         Op::GlobalDefs(v) => { let e = eff(false, cur.gd); set(cur, saved, e, |s| s.gd = v) }
         Op::DefAP(k, v) => { let e = eff(k >= 1, cur.gd); set(cur, saved, e, |s| s.a = v) }
         Op::Adv(gl) => { let e = eff(gl, cur.gd); let n = cur.c1 + 1; set(cur, saved, e, |s| s.c1 = n) }
+        Op::LetAA(gl) => { let e = eff(gl, cur.gd); let a = cur.a; set(cur, saved, e, |s| s.a = a) }
     }
     true
 }
@@ -70,7 +73,7 @@ fn histories(part: usize, parts: usize) {
     let ops = [Op::Begin, Op::End, Op::Count1(false, 5), Op::Count1(true, 6), Op::Alias(false, 7), Op::Alias(true, 8),
         Op::DefA(false, 2), Op::DefA(true, 3), Op::DefTilde(false, 4), Op::DefTilde(true, 5), Op::LetB(false), Op::LetB(true),
         Op::Cat(false, 11), Op::Cat(true, 12), Op::GlobalDefs(1), Op::GlobalDefs(-1), Op::GlobalDefs(0),
-        Op::DefAP(0, 6), Op::DefAP(1, 7), Op::DefAP(2, 8), Op::DefAP(3, 9), Op::Adv(false), Op::Adv(true)];
+        Op::DefAP(0, 6), Op::DefAP(1, 7), Op::DefAP(2, 8), Op::DefAP(3, 9), Op::Adv(false), Op::Adv(true), Op::LetAA(false), Op::LetAA(true)];
     let prelude = "\\catcode`\\~=13 \\countdef\\cc=2 \\count1=1 \\count2=1 \\def\\a{1}\\def\\b{1}\\def~{1}\\catcode`\\!=12 ";
     let init = St { c1: 1, c2: 1, a: 1, b: 1, tilde: 1, cat: 12, gd: 0 };
     let n = ops.len();
@@ -113,3 +116,51 @@ fn histories(part: usize, parts: usize) {
 #[test] fn group_scoping_histories_1() { histories(1, 4); }
 #[test] fn group_scoping_histories_2() { histories(2, 4); }
 #[test] fn group_scoping_histories_3() { histories(3, 4); }
+
+
+// ---------------------------------------------------------------- the current font (its save stack is inlined in VM::run_impl)
+/// every history of <= 6 steps over { {, }, three local font selectors, one \global font selector, a global register
+/// assignment }: the font that is current when the input ends (after closing every open group) against the model
+#[test]
+fn font_scoping() {
+    use texlang::{command, types};
+    std::panic::set_hook(Box::new(|_| {}));
+    #[derive(Clone, Copy, PartialEq, Debug)]
+    enum F { Begin, End, Local(u32), Global(u32), Count }
+    let ops = [F::Begin, F::End, F::Local(1), F::Local(3), F::Global(2), F::Count];
+    let tex = |o: F| match o { F::Begin => "{".to_string(), F::End => "}".to_string(), F::Local(n) => format!("\\font{} ", ['Z', 'A', 'B', 'C'][n as usize]), F::Global(n) => format!("\\global\\font{} ", ['Z', 'A', 'B', 'C'][n as usize]), F::Count => "\\global\\count1=6 ".to_string() };
+    let n = ops.len();
+    let mut cases = 0u64;
+    for len in 1..=6usize {
+        let mut idx = vec![0usize; len];
+        'hist: loop {
+            let h: Vec<F> = idx.iter().map(|&i| ops[i]).collect();
+            let mut depth = 0i32; let mut ok = true;
+            for op in &h { if *op == F::Begin { depth += 1 } if *op == F::End { depth -= 1; if depth < 0 { ok = false } } }
+            if ok {
+                // model: the font per open level
+                let (mut cur, mut saved): (u32, Vec<u32>) = (0, vec![]);
+                for op in &h { match op { F::Begin => saved.push(cur), F::End => cur = saved.pop().unwrap(), F::Local(f) => cur = *f, F::Global(f) => { cur = *f; for s in saved.iter_mut() { *s = *f; } } F::Count => {} } }
+                let mut src: String = h.iter().map(|o| tex(*o)).collect();
+                while let Some(s) = saved.pop() { cur = s; src.push('}'); }
+                let src = src.replace("\\\\", "\\");
+                cases += 1;
+                let s2 = src.clone();
+                let got = std::panic::catch_unwind(move || {
+                    let mut built_ins = crate::built_in_commands::<StdLibState>();
+                    for (name, f) in [("fontZ", 0), ("fontA", 1), ("fontB", 2), ("fontC", 3)] { built_ins.insert(name, command::BuiltIn::new_font(types::Font(f))); }
+                    let mut vm = vm::VM::<StdLibState>::new_with_built_in_commands(built_ins);
+                    vm.push_source("input.tex", s2).unwrap();
+                    crate::script::run_to_string(&mut vm).map(|_| vm.current_font().0).map_err(|e| format!("{e}"))
+                });
+                if !matches!(&got, Ok(Ok(f)) if *f as u32 == cur) {
+                    println!("WITNESS {{\"fn\": \"run\", \"unit_fns\": [\"begin_group\", \"end_group\", \"run_impl\"], \"history\": \"{}\", \"observed\": \"{}\", \"expected\": \"current font {cur} at the end\"}}", src.replace('\\', "/"), format!("{:?}", got).replace('"', "'").replace('\\', "/").chars().take(160).collect::<String>());
+                    return;
+                }
+            }
+            let mut p = 0;
+            loop { if p == len { break 'hist; } idx[p] += 1; if idx[p] < n { break; } idx[p] = 0; p += 1; }
+        }
+    }
+    println!("STATS {{\"fn\": \"font_scoping\", \"cases\": {cases}}}");
+}
